@@ -65,6 +65,11 @@ def _endings():
     add('fail_then_cleanup_hard', 'exec', 'HARD_ERROR', ['cleanup'], how='stub_fail')
     add('fail_then_cleanup_exception', 'exec', 'INTERNAL_ERROR', ['cleanup'], how='exit_code_mismatch')
     add('fail_then_cleanup_exception', 'exec', 'INTERNAL_ERROR', ['cleanup'], how='stub_fail')
+    # two failing instructions in ONE phase: the first one interrupts the execution, and it is the one that is reported
+    add('two_failures_in_one_phase', 'exec', 'HARD_ERROR', ['assert'], how='hard_then_fail')
+    add('two_failures_in_one_phase', 'exec', 'fail', ['assert'], how='fail_then_hard')
+    add('two_failures_in_one_phase', 'exec', 'HARD_ERROR', ['setup', 'before-assert', 'cleanup'], how='hard_then_exception')
+    add('two_failures_in_one_phase', 'exec', 'INTERNAL_ERROR', ['setup', 'before-assert', 'assert'], how='exception_then_hard')
     # the instructions that are no assertions (cd, dir, file, copy) but may be written in [assert]: one that cannot do its
     # job is an error there as everywhere else - "reported as an error, and not as a failed test"
     add('helper_instruction_fails', 'exec', 'HARD_ERROR', ['setup', 'before-assert', 'assert', 'cleanup'])
@@ -264,6 +269,31 @@ def build(seed, tier, ending, status, mode, g, atc_exit=None, sweep=False):
         else:
             insert('cleanup', {'k': 'fault', 'id': 'lx'})
             faults.append({'id': 'lx', 'step': 'main', 'kind': 'raise_exc', 'exc': g.choice(EXCS)})
+    elif eid == 'two_failures_in_one_phase':
+        how = ending['how']
+        pfx = casegen.PREFIX[ph]
+
+        def failing(kind):
+            ident = '%s%s' % (pfx, {'hard': 'h', 'fail': 'f', 'exception': 'e'}[kind])
+            if kind == 'fail':
+                return {'k': 'real', 'e': 1, 'text': 'exit-code == %d' % ((atc_exit + g.choice([1, 2, 100])) % 256)}
+            if kind == 'hard' and g.random() < 0.5:
+                procs[ident] = {'spawn_error': g.choice(['ENOENT', 'EACCES'])} if g.random() < 0.5 else \
+                    {'exit': g.choice([1, 2, 255]), 'stderr': 'boom\n'}
+                if ph == 'assert' and 'exit' in procs[ident]:
+                    procs[ident] = {'spawn_error': 'ENOENT'}  # (a non-zero exit is a FAIL in [assert])
+                return {'k': 'probe', 'e': 1, 'id': ident, 'form': g.choice(['%', 'run', '$'])}
+            faults.append({'id': ident, 'step': 'main', 'exc': g.choice(EXCS),
+                           'kind': 'raise_exc' if kind == 'exception' else ('pfh_hard' if ph == 'assert' else
+                                                                            g.choice(['sh_hard', 'raise_hard']))})
+            return {'k': 'fault', 'e': 1, 'id': ident}
+
+        first, second = {'hard_then_fail': ('hard', 'fail'), 'fail_then_hard': ('fail', 'hard'),
+                         'hard_then_exception': ('hard', 'exception'), 'exception_then_hard': ('exception', 'hard')}[how]
+        items = case[ph]
+        i = g.randint(0, len(items))
+        items.insert(i, failing(first))
+        items.insert(g.randint(i + 1, len(items)), failing(second))
     elif eid == 'stub_hard_returned':
         stub(ph, 'main', 'pfh_hard' if ph == 'assert' else 'sh_hard')
     elif eid == 'stub_hard_raised':
